@@ -21,12 +21,13 @@ KidsFaulty == { Kid(-1, -1, FALSE, FALSE, FALSE), Kid(1, -1, FALSE, FALSE, FALSE
 
 OpsAll == {"start", "stop", "stop_with_signal", "restart", "restart_with_signal",
            "try_restart", "try_restart_with_signal", "signal", "delete", "delete_now",
-           "to_wait", "run"}
+           "to_wait", "run", "run_async", "unset_hook"}
 OpsGraceful == {"start", "stop_with_signal", "restart_with_signal",
                 "try_restart_with_signal", "to_wait", "run", "delete_now", "try_restart"}
 OpsOrder == {"start", "run", "to_wait", "delete_now", "stop_with_signal", "delete"}
 
-IsGraceful(op) == op \in {"stop_with_signal", "restart_with_signal", "try_restart_with_signal"}
+\* operations with a duration: the graceful ones (grace period) and run_async (how long its future takes)
+IsGraceful(op) == op \in {"stop_with_signal", "restart_with_signal", "try_restart_with_signal", "run_async"}
 
 MCInit ==
     /\ now = 0 /\ qU = <<>> /\ qH = <<>> /\ qN = <<>>
@@ -80,6 +81,7 @@ Held(id) ==
     \/ S.timer.on /\ S.timer.id = id
     \/ S.onEndRestart.on /\ S.onEndRestart.id = id
     \/ id \in Range(S.onEnd)
+    \/ S.afn.on /\ S.afn.id = id
 NoDroppedFlag   == S.task # "panicked" => \A id \in sent : Resolved(id) \/ Held(id)
 NoPanic         == S.task # "panicked"
 EndedMeansGone  == S.task = "ended" => S.gone
@@ -90,7 +92,7 @@ ResolvedAtRest ==
        => \A id \in sent : Resolved(id) \/ (S.cs = "running" /\ id \in Range(S.onEnd))
 \* queued normal controls may stay behind only while a grace timer is armed
 NothingStuck ==
-    (Quiescent /\ S.task = "run" /\ ~closed) => (qU = <<>> /\ qH = <<>> /\ (qN = <<>> \/ S.timer.on))
+    (Quiescent /\ S.task = "run" /\ ~closed /\ ~S.afn.on) => (qU = <<>> /\ qH = <<>> /\ (qN = <<>> \/ S.timer.on))
 
 \* C09 (sanity of the documented state machine)
 StateShape ==
